@@ -360,7 +360,7 @@ pub fn start_tcp_client_slow(addr: SocketAddr, retry: (u64, u64), opts: ClientOp
     }
 }
 
-fn spawn_cmd(ch: &Channel, what: u8, lvl: u8) {
+pub(crate) fn spawn_cmd(ch: &Channel, what: u8, lvl: u8) {
     let ch = ch.clone();
     simtokio::task::spawn_named("cmd", async move {
         let _ = match what {
@@ -372,7 +372,7 @@ fn spawn_cmd(ch: &Channel, what: u8, lvl: u8) {
     });
 }
 
-const MS: u64 = 1_000_000;
+pub(crate) const MS: u64 = 1_000_000;
 
 fn pick_timeout() -> u64 {
     [1 * MS, 10 * MS, 100 * MS, 250 * MS, 1000 * MS, 5000 * MS, 60_000 * MS][choose(7) as usize]
